@@ -9,12 +9,58 @@ from .c03 import Agg, value_matches
 from . import net
 
 
+def header_ctor(ck, agg):
+    """R11.9: a freshly constructed header holds values that survive pack()/unpack() unchanged - in particular the frame id, taken from a
+    class-level counter, is a 16-bit value for every value the counter can have, and the counter itself stays within 16 bits (wrap-around)"""
+    from ..absval import interval
+    P = ck.prog
+    S = net.structs(P)
+    hc = S["RF24NetworkHeader"]
+    init = hc.lookup("__init__")[1]
+    # the class attribute(s) the constructor reads and writes (the id counter)
+    ctrs = sorted({t.attr for x in ast.walk(init.node) if isinstance(x, (ast.Assign, ast.AugAssign)) for t in (x.targets if isinstance(x, ast.Assign) else [x.target])
+                   if isinstance(t, ast.Attribute) and isinstance(t.value, ast.Name) and t.value.id == hc.name})
+    agg.add("R11.9", init, "the constructor draws the frame id from a class-level counter (anchor)", len(ctrs) == 1, "class attributes written: %r" % (ctrs,))
+    if len(ctrs) != 1:
+        return 0
+    ctr = ctrs[0]
+    n = 0
+    for lo, hi, what in ((0, 0xFFFE, "below the wrap"), (0xFFFF, 0xFFFF, "at 0xFFFF")):
+        n += 1
+        st = State()
+        st.extra[("classattr", hc.qualname, ctr)] = Sym("counter", "int", rng=(lo, hi)) if lo != hi else Const(lo)
+        if lo != hi:
+            st.extra["symrng"] = {"counter": (lo, hi)}
+        h = st.alloc("obj", cls=hc, label="hdr")
+        outs, it = net.run(ck, init, hc, h, [Const(0o1), Const(65)], st)
+        for out in outs:
+            if out.kind != "return":
+                agg.add("R11.9", init, "the header constructor does not raise", False, "raises %s" % out.value.exc)
+                continue
+            fid = out.state.heap[h.ident].fields.get("frame_id")
+            nxt = out.state.extra.get(("classattr", hc.qualname, ctr))
+            for nm, v in (("the new header's frame id", fid), ("the class-level id counter", nxt)):
+                iv = interval(norm(v)) if v is not None and hasattr(v, "key") else None
+                if iv is None or None in iv:
+                    c = const_of(norm(v)) if v is not None and hasattr(v, "key") else None
+                    iv = (c, c) if isinstance(c, int) else None
+                if iv is None and v is not None and hasattr(v, "key"):
+                    from ..absval import as_lin
+                    l = as_lin(norm(v))
+                    if l is not None and set(l.terms) <= {"counter"}:
+                        k = l.terms.get("counter", 0)
+                        iv = (min(k * lo, k * hi) + l.c, max(k * lo, k * hi) + l.c)
+                agg.add("R11.9", init, "%s stays a 16-bit value (it is packed as uint16: a larger value in memory would differ from what is on the wire)" % nm,
+                        iv is not None and 0 <= iv[0] and iv[1] <= 0xFFFF, "counter %s: %s becomes %r (range %r)" % (what, nm, v, iv))
+    return n
+
+
 def header_rules(ck, agg):
     P = ck.prog
     S = net.structs(P)
     hc, fc = S["RF24NetworkHeader"], S["RF24NetworkFrame"]
     f_pack, f_unpack, f_len = P.method(hc, "pack"), P.method(hc, "unpack"), P.method(hc, "__len__")
-    n = 0
+    n = header_ctor(ck, agg)
     # ---- pack: format, order, masks (fields unconstrained so that the masks are what makes the arguments fit)
     st = State()
     h = st.alloc("obj", cls=hc, label="hdr")
